@@ -205,7 +205,7 @@ fn extract_subscript(script_code: &[u8], checksig_index: usize) -> Result<Vec<u8
     } else {
         // Look for all OP_CHECKSIG
         let checksig_positions: Vec<usize> = find_all_occurances_of(script_code, OP_CHECKSIG);
-        if checksig_index > (checksig_positions.len() -1) {
+        if !checksig_positions.is_empty() && checksig_index > (checksig_positions.len() - 1) {
             let err_msg = format!("checksig_index {} exceeds the number of OP_CHECKSIGs ({}) found in code", checksig_index, checksig_positions.len());
             return Err(ChainGangError::BadArgument(err_msg));
         };
